@@ -71,6 +71,17 @@ func Lookalikes(level int) []*tv.Package {
 	add("struct/unkeyed-literal", "func FN(x uint64) uint64 {\n\tp := Pt{x, 2}\n\treturn p.X + p.Y\n}")
 	add("struct/compare", "func FN(p Pt, q Pt) bool {\n\treturn p == q\n}")
 	add("struct/anonymous", "func FN(x uint64) uint64 {\n\ts := struct{ A uint64 }{A: x}\n\treturn s.A\n}")
+	add("log/bound-results", "func FN(x uint64) uint64 {\n\tn, _ := fmt.Println(\"x\")\n\t_ = n\n\treturn x\n}")
+	add("log/discarded-results", "func FN(x uint64) uint64 {\n\t_, _ = fmt.Println(\"x\")\n\treturn x\n}")
+	add("log/only-statement-of-then", "func FN(x uint64) uint64 {\n\tif x > 1 {\n\t\tlog.Println(\"big\")\n\t}\n\treturn x\n}")
+	add("log/only-statement-of-else", "func FN(x uint64) uint64 {\n\tvar r uint64 = 0\n\tif x > 1 {\n\t\tr = 1\n\t} else {\n\t\tfmt.Println(\"small\")\n\t}\n\treturn r\n}")
+	add("log/only-statement-of-loop", "func FN(n uint64) uint64 {\n\tfor i := uint64(0); i < n; i++ {\n\t\tlog.Printf(\"i %d\", i)\n\t}\n\treturn n\n}", "small:n")
+	add("log/last-statement", "func FN(p *Pt) {\n\tp.X = 1\n\tlog.Println(\"done\")\n}")
+	add("log/before-return-in-then", "func FN(x uint64) uint64 {\n\tif x > 1 {\n\t\tlog.Println(\"big\")\n\t\treturn 1\n\t}\n\treturn 2\n}")
+	add("log/two-in-a-row", "func FN(x uint64) uint64 {\n\tlog.Println(\"a\")\n\tlog.Println(\"b\")\n\treturn x\n}")
+	add("ctl/early-return-else-if", "func FN(x uint64) uint64 {\n\tvar r uint64 = 0\n\tif x > 3 {\n\t\treturn 1\n\t} else if x > 1 {\n\t\tr = 2\n\t}\n\treturn r\n}")
+	add("ctl/early-return-else-if-else", "func FN(x uint64) uint64 {\n\tvar r uint64 = 0\n\tif x > 3 {\n\t\treturn 1\n\t} else if x > 1 {\n\t\tr = 2\n\t} else {\n\t\tr = 3\n\t}\n\treturn r\n}")
+	add("ctl/break-else-if", "func FN(n uint64) uint64 {\n\tvar s uint64 = 0\n\tfor i := uint64(0); i < n; i++ {\n\t\tif i > 2 {\n\t\t\tbreak\n\t\t} else if i > 0 {\n\t\t\ts += 1\n\t\t}\n\t\ts += 10\n\t}\n\treturn s\n}", "small:n")
 	add("ptr/addr-of-param", "func FN(x uint64) uint64 {\n\tq := &x\n\t*q = 5\n\treturn x\n}")
 	add("ptr/addr-of-defined", "func FN(x uint64) uint64 {\n\tn := x + 1\n\tq := &n\n\t*q = *q + 1\n\treturn n\n}")
 	add("struct/addr-of-nonvar", "func FN(x uint64) uint64 {\n\tp := Pt{X: x}\n\tq := &p\n\tq.X = 5\n\treturn p.X\n}")
